@@ -93,7 +93,12 @@ func (d *dec) superblock() {
 		if cache > 2 {
 			d.fail("superblock at 0x%x: root symbol table entry cache type %d not in 0..2", pos, cache)
 		}
-		_ = scratch
+		if cache == 1 {
+			sc := d.cursor(scratch, uint64(pos+c.pos-16), "superblock root symbol table entry scratch-pad")
+			d.rootCachedBT = sc.addr("cached B-tree address")
+			d.rootCachedHeap = sc.addr("cached name heap address")
+			d.rootCached = true
+		}
 		d.addExtent(uint64(pos), uint64(c.pos), "superblock")
 		if drvAddr != UndefAddr {
 			d.unsupported("driver information block at 0x%x (multi/family/split file driver)", d.abs(drvAddr))
@@ -118,9 +123,7 @@ func (d *dec) superblock() {
 		f.EOFAddr = c.addr("end of file address")
 		f.RootAddr = c.addr("root group object header address")
 		stored := c.u32("checksum")
-		if got := checksum(c.b[:c.pos-4]); got != stored {
-			d.fail("superblock at 0x%x: stored checksum 0x%08x, lookup3 over the preceding %d bytes is 0x%08x", pos, stored, c.pos-4, got)
-		}
+		d.verifyChecksum(c.b[:c.pos-4], stored, "superblock-crc32", "superblock at 0x%x", pos)
 		d.base = d.baseAddress(uint64(pos))
 		f.GroupLeafK, f.GroupInternalK, f.ChunkK = 4, 16, 32
 		d.addExtent(uint64(pos), uint64(c.pos), "superblock")
@@ -133,7 +136,7 @@ func (d *dec) superblock() {
 	if f.EOFAddr == UndefAddr {
 		d.fail("superblock at 0x%x: end of file address is undefined", pos)
 	}
-	if d.base+f.EOFAddr < uint64(pos)+uint64(c.pos) {
+	if f.EOFAbsolute() < uint64(pos)+uint64(c.pos) {
 		d.fail("superblock at 0x%x: end of file address 0x%x lies inside the superblock", pos, f.EOFAddr)
 	}
 }
